@@ -288,6 +288,17 @@ def run_program(prog, st=None):
             if model_refuses:
                 raise Violation("overflow-not-refused", "chain of >= 10 sub-interpretations was entered")
             check_top(f"inside {name}")
+            # identity, not only names: a partial layer sits directly on the interpretation that was active when it was
+            # entered (two contexts may carry the same name), a memoize layer wraps exactly that interpretation
+            top = interpreter.get_interpretation()
+            if name in ("partial", "adjoint"):
+                want_objs = (cm,) + tuple(before.subinterpretations)
+                got_objs = tuple(top.subinterpretations)
+                if len(got_objs) != len(want_objs) or any(a is not b for a, b in zip(got_objs, want_objs)):
+                    raise Violation("layer-over-the-wrong-interpretation", f"inside {name}: the active chain is not (this context,) + the chain active at entry (same names, other objects); model stack {[s_[1] for s_ in model.stack]}")
+            elif name == "memoize":
+                if getattr(top, "base_interpretation", None) is not before:
+                    raise Violation("layer-over-the-wrong-interpretation", f"inside memoize: it wraps {getattr(top, 'base_interpretation', None)!r}, active at entry was {before!r}")
             run_items(items)
 
         try:
@@ -428,6 +439,22 @@ class C17(Prop):
             stt.mark_nontrivial(case_hash(case))
 
     def extra(self, tier, shard, nshards, stt, seed):
+        if tier == "quick":
+            # every chain of three nested blocks (the quick enumeration below stops at two blocks)
+            idx = 0
+            for names in itertools.product(INTERPS, repeat=3):
+                idx += 1
+                if idx % nshards != shard:
+                    continue
+                for ra in (None, ("in", 2)):
+                    prog = label(((((),),),), names, ["with", "with", "with"], [0], ra)
+                    stt.evaluations += 1
+                    try:
+                        info = run_program(prog)
+                    except Violation as v:
+                        stt.violations.append(dict(bucket=v.bucket + "|chain3", message=v.message + f" program={prog}", case=prog))
+                        return
+                    stt.mark_nontrivial(case_hash(prog))
         maxn = 2 if tier == "quick" else 3
         idx = 0
         for n in range(1, maxn + 1):
